@@ -291,7 +291,7 @@ func C20() *check.Property {
 		Title:    "Rate limiters never exceed the quota and keep per-key order",
 		Patterns: cat(CorePatterns, RatePkgs),
 		Scope:    RatePkgs,
-		Rules:    []check.Rule{ruleFilterShape(), ruleNativeComposition(), ruleErrResultUsed(), ruleErrPropagation(), ruleRelease(), ruleCtxProvenance(), withCore(ruleStateLevel()), withCore(ruleSubjectBroadcastLocked()), withCore(ruleSubjectDelivers()), withCore(ruleNoDuplicateForward()), withCore(ruleGetOrCreate()), withCore(ruleInnerFilledBeforeHandover())},
+		Rules:    []check.Rule{ruleFilterShape(), ruleNativeComposition(), ruleErrResultUsed(), ruleErrPropagation(), ruleRelease(), ruleCtxProvenance(), withCore(ruleStateLevel()), withCore(ruleSubjectBroadcastLocked()), withCore(ruleSubjectDelivers()), withCore(ruleNoDuplicateForward()), withCore(ruleGetOrCreate()), withCore(ruleInnerFilledBeforeHandover()), withCore(ruleNoHotInCold())},
 		Explanation: "Structural clauses only. The quota over time windows is NOT decided (it depends on the clock, on the ulule store and on the run-time behaviour of GroupBy/WindowWhen/MergeAll). Decided: the ulule limiter is a synchronous per-item filter " +
 			"(one store query with the item's own key and context; at most one forward of the unmodified value, only where the limit is not reached and the store did not fail; nothing buffered; terminals propagated) — hence per-key order and no duplication " +
 			"for a synchronous stage, and independence of keys is delegated to the store; store errors become Error notifications (ERR-RESULT-USED). The native limiter is a pure composition whose three parameters reach GroupBy, Interval and Take respectively; the structural premises of the core operators it composes (per-subscription state of GroupBy/WindowWhen/MergeAll/Take: STATE-LEVEL; the unicast window subjects deliver in order under their lock: SUBJECT-BROADCAST-LOCKED, SUBJECT-DELIVERS) are re-checked with package ro armed.",
@@ -305,7 +305,7 @@ func C20() *check.Property {
 			"zz_verif_controls_c05.go":                         roControl(controlsC05),
 			"zz_verif_controls_c07.go":                         roControl(controlsC07),
 			"zz_verif_controls_c09.go":                         roControl(controlsC09),
-			"zz_verif_controls_c12.go":                         roControl(controlsC12),
+			"zz_verif_controls_c12.go":                         roControl(controlsC12 + controlsNoHotInCold),
 		},
 	}
 }
